@@ -259,6 +259,9 @@ func c04Scenarios(th bool) []*Scn {
 				if mode == "free3" {
 					b = bound - 1
 				}
+				if th && (mode == "free1" || mode == "free2") && hold == 9 {
+					b = bound + 1
+				}
 				out = append(out, c04Scn(c04Params{mode, ev, hold}, b))
 			}
 		}
